@@ -734,7 +734,8 @@ MANIFEST = {
             "than the deadline with onClose(False,1006,<matching reason>); peers reacting >=1 s before "
             "the deadline must never be dropped by that timer; pings keep leaving at the interval; "
             "after CLOSED a further 60 s of clock has no effect (no write, callback, state change, "
-            "escaping exception).",
+            "escaping exception)."
+            " A chatty peer (data frames every 0.5/0.75 s between the pings) is still pinged at the configured interval; closing handshakes started by a client's failing onConnect().",
     "note": "Trusted: virtual clock/loop (env/), batched-timer granularity assumption (1.2 s early at "
             "most). Timeouts from {1,2,5} (quick {1,2}).",
     "technique": "exhaustive enumeration of timed schedules on a discretised virtual clock, executed on "
